@@ -1,4 +1,4 @@
-import LzmaVerif.Proofs.EncWindowSim
+import LzmaVerif.Proofs.EncWindow
 /-!
 # The encoder window with `flush` calls: the pending bytes keep their history across a window move
 
@@ -714,5 +714,125 @@ theorem flush_inv_runEv (hP : P.WF) (hrep : P.pinnedMove = false) (hfs : P.Flush
   exact ⟨c2, .E, t2⟩
 
 end
+
+/-! ## Consequences, the real parameters, the witness -/
+
+section
+variable {β : Type} (B : BufOps β) (P : Params) (O : Oracle)
+
+/-- **No position the match finder is run at lacks history.**  In every run with `flush` calls the ghost flag
+    `low` stays clear: at every `find_matches` / `skip` step and at every pending byte that
+    `process_pending_bytes` hands to the match finder again, at least `min(keep_size_before - 1, bytes seen so far)`
+    bytes before `read_pos` are in the buffer, so no candidate at distance `delta ≤ dict_size ≤ keep_size_before - 1`
+    is read at a negative index. -/
+theorem flush_runs_keep_history (hP : P.WF) (hrep : P.pinnedMove = false) (hfs : P.FlushSmall) (evs : List Ev) :
+    (runEv B P O evs).low = false :=
+  (flush_inv_runEv B P O hP hrep hfs evs).core.low_ok
+
+/-- **The window move in a state with pending bytes.**  In every state that satisfies the invariant and is not
+    finishing, when `fill_window` moves the window the repaired `move_offset` is at least `MOVE_BLOCK_ALIGN` before
+    alignment (never negative: the code's `debug_assert!(move_offset >= 0)`; at least 64 bytes become free, so a
+    non-empty input makes progress), and afterwards `keep_size_before - 1` bytes of history lie before the first
+    pending byte. -/
+theorem flush_inv_move_offset (hP : P.WF) (hrep : P.pinnedMove = false) (hfs : P.FlushSmall) (s : St β) (input : List Nat)
+    (h : FInv P s) (hf : s.win.finishing = false) (hmove : (P.bufSize : Int) - P.keepAfter ≤ s.win.readPos) :
+    let r := fillCore B P s.win input
+    (Consts.MOVE_BLOCK_ALIGN : Int) ≤ moveOffsetRaw P s.win ∧ Consts.MOVE_BLOCK_ALIGN ≤ moveOffset P s.win ∧
+    (P.keepBefore : Int) ≤ r.1.readPos - r.1.pendingSize + 1 ∧ 0 ≤ r.1.readPos - r.1.pendingSize ∧
+    (input ≠ [] → 0 < r.2) := by
+  intro r
+  have hr : r = fillCore B P s.win input := rfl
+  rw [hr]
+  clear hr r
+  have hkA : 1 ≤ P.keepAfter := by have := hP.mlm_pos; show 1 ≤ P.extraAfter + P.matchLenMax; omega
+  have hps : s.win.pendingSize + Consts.MOVE_BLOCK_ALIGN ≤ 262144 := by
+    unfold Params.FlushSmall at hfs
+    rcases h.pend_small P hf with t0 | t0 <;> omega
+  have c := h.core
+  obtain ⟨_, _, _, _, g5, g6, _, _, _, _, g11⟩ :=
+    fillCore_facts B P hrep hkA s.win input c.wp_le c.rp_ge c.rp_lt c.rl_le c.pend_le c.lookback hps
+  obtain ⟨m1, m2, m3, m4⟩ := g11 hmove
+  have hA : 0 < Consts.MOVE_BLOCK_ALIGN := align_ok.2
+  have hkb := hP.kb_pos
+  refine ⟨m1, m2, ?_, ?_, m4⟩
+  · rcases g6 with g | g
+    · omega
+    · exact g
+  · rcases g6 with g | g
+    · omega
+    · omega
+
+end
+
+/-- the parameters of the real encoders satisfy the side conditions of the flush theorems -/
+theorem mkParams_flush (dict nice : Nat) (mode : Mode) (mf : MF) (lzma2 : Bool) (hn2 : nice ≤ Consts.MATCH_LEN_MAX) :
+    (mkParams dict nice mode mf lzma2).pinnedMove = false ∧ (mkParams dict nice mode mf lzma2).FlushSmall := by
+  refine ⟨rfl, ?_⟩
+  have hM : Consts.MATCH_LEN_MAX = 273 := rfl
+  have hA : Consts.MOVE_BLOCK_ALIGN = 64 := rfl
+  show (match mf with | .hc4 => 4 | .bt4 => nice) + Consts.MOVE_BLOCK_ALIGN ≤ 262144
+  cases mf <;> simp only <;> omega
+
+/-! ### The witness: the statement before the repair
+
+The state of the reproducer (`LZMA2Writer`, fast mode, BT4, `nice_len = 273`, `dict_size = 64 KiB`: `keep_size_before
+= 65537`, `keep_size_after = 545`, `buf_size = 360994`) after `write(360769 bytes); flush()`: everything is coded
+(`read_pos = write_pos - 1 = 360768`), the last 272 positions are pending. -/
+
+def reproParams (pinned : Bool) : Params := { mkParams 65536 273 .fast .bt4 true with pinnedMove := pinned }
+
+def reproState : St Unit :=
+  { win := { buf := (), readPos := 360768, readLimit := 360768, writePos := 360769, pendingSize := 272 } }
+
+/-- the state satisfies the invariant (phase `I`), for the old and the repaired statement alike -/
+theorem reproState_FInv (pinned : Bool) : FInv (reproParams pinned) reproState := by
+  cases pinned <;>
+    exact ⟨⟨by decide, by decide, by decide, by decide, by decide, by decide, by decide, by decide, by decide⟩, .I,
+      ⟨by decide, by decide, by decide, by decide⟩⟩
+
+/-- **Witness.**  With `move_window` as it was before the repair, the next `fill_window` (5000 more bytes) moves the
+    window by 295232 bytes, `process_pending_bytes` rewinds to buffer position 65264 and the match finder is run at
+    65265 with 294960 + 272 = 295232 bytes discarded: fewer than `keep_size_before - 1 = 65536` bytes of history are
+    left (`low` is set; BT4 then reads `buf[read_pos - delta]` with `delta` up to `dict_size = 65536`: index -271).
+    The repaired statement moves by 294912 bytes only and the flag stays clear (an instance of
+    `flush_inv_move_offset` / `fillWindow_FInv`, re-checked by evaluation). -/
+theorem pinned_move_loses_pending_history :
+    moveOffset (reproParams true) reproState.win = 295232 ∧
+    (fillWindow noBuf (reproParams true) reproState (List.replicate 5000 0)).1.low = true ∧
+    moveOffset (reproParams false) reproState.win = 294912 ∧
+    (fillWindow noBuf (reproParams false) reproState (List.replicate 5000 0)).1.low = false := by
+  decide +kernel
+
+/-! ### Non-vacuity -/
+
+/-- small parameters for runs with contents-free evaluation -/
+def tinyF : Params :=
+  { dictSize := 8, extraBefore := 1, extraAfter := 3, matchLenMax := 4, niceLen := 4, reqFlush := 4, reqFinish := 2,
+    maxAhead := 3, lzma2 := true }
+
+/-- the hypotheses of the flush theorems hold for the parameters of the reproducer … -/
+theorem reproParams_eq : reproParams false = mkParams 65536 273 .fast .bt4 true := rfl
+
+example : (reproParams false).WF ∧ (reproParams false).pinnedMove = false ∧ (reproParams false).FlushSmall := by
+  rw [reproParams_eq]
+  exact ⟨mkParams_WF _ _ _ _ _ (by decide) (by decide) (by decide), (mkParams_flush 65536 273 .fast .bt4 true (by decide)).1,
+    (mkParams_flush 65536 273 .fast .bt4 true (by decide)).2⟩
+
+/-- … `flush_inv_move_offset` applies to the reproducer's state (it is not finishing and the window must move) … -/
+example : reproState.win.finishing = false ∧
+    ((reproParams false).bufSize : Int) - (reproParams false).keepAfter ≤ reproState.win.readPos := by decide
+
+/-- … and a run with flush calls that leaves bytes pending and codes them later: small parameters, a flush after 6
+    bytes (`required_for_flushing = 4`: three bytes stay pending), evaluated -/
+example : (runEvs noBuf tinyF (policyOracle 0) (St.init noBuf tinyF) [.write (cyclicBytes 0 6), .flush]).win.pendingSize = 3 ∧
+    (runEv noBuf tinyF (policyOracle 0) [.write (cyclicBytes 0 6), .flush, .write (cyclicBytes 6 30), .flush]).low = false := by
+  decide +kernel
+
+#print axioms flush_inv_runEv
+#print axioms flush_runs_keep_history
+#print axioms flush_inv_move_offset
+#print axioms mkParams_flush
+#print axioms reproState_FInv
+#print axioms pinned_move_loses_pending_history
 
 end LzmaVerif.EncWindow
